@@ -11,7 +11,7 @@ import optree
 import z3
 
 from vcgen import alg
-from vcgen.proxy import AMat, CTX, SBool, SInt, SScal, Unsupported, is_cplx, iterm, dim_eq
+from vcgen.proxy import AMat, CTX, SBool, SInt, SScal, Unsupported, is_cplx, iterm, dim_eq, modelled
 
 __name__ = "vcgen.symfns"
 
@@ -101,7 +101,7 @@ def array(arr, dtype=None, device=None):
     if isinstance(arr, (SScal, SInt)):
         s = SScal.lift(arr)
         if dtype is not None and not is_cplx(dtype) and not s.is_real():
-            raise TypeError("can't convert complex to float")  # what np.array(complex, dtype=float) does
+            raise modelled(TypeError("can't convert complex to float"))  # what np.array(complex, dtype=float) does
         if dtype is None:
             dtype = s.dtype or (np.complex128 if not s.is_real() else np.float64)
         return SScal(s.re, s.im, dtype=np.dtype(dtype), integral=s.integral)
